@@ -379,3 +379,85 @@ def emptiness_guard(g, truth):
             if isinstance(a, tuple) and a[0] == 'call' and mir.cname(a[1]).split('::')[-1] == 'len' and const_val(b) == 0:
                 return strip(a[2]), truth
     return None
+
+
+def _fnum(t):
+    """numeric value of a constant float expression (PI, -PI, 2.0 * PI ...)"""
+    t = strip(t)
+    v = const_val(t)
+    if isinstance(v, (int, float)) and not isinstance(v, bool):
+        return float(v)
+    if isinstance(t, tuple) and t[0] == 'un' and t[1] == 'Neg':
+        x = _fnum(t[2])
+        return None if x is None else -x
+    if isinstance(t, tuple) and t[0] == 'bin' and t[1] in ('Mul', 'Add', 'Sub'):
+        a, b = _fnum(t[2]), _fnum(t[3])
+        if a is None or b is None:
+            return None
+        return {'Mul': a * b, 'Add': a + b, 'Sub': a - b}[t[1]]
+    return None
+
+
+def reduced_to_pi(body, var, at_block):
+    """Control-flow proof that the f64 variable `var` (a term: ('var', ..) / ('mparam', ..)) lies in [-PI, PI] at block
+    `at_block` and differs from its initial value by whole turns only:
+      bounded   - the block is dominated by edges on which `var <= c1` (c1 <= PI) and `c2 <= var` (c2 >= -PI) hold
+                  (typically the exit edges of `while var > PI` and `while var < -PI`);
+      congruent - every re-definition of the variable is `var +/- 2*PI`.
+    -> (bounded, congruent)"""
+    import math
+    from . import opw
+    var = strip(var)
+    lo = hi = False
+    for g, k, sw in body.guard_terms(at_block):
+        bd = as_bound(g, opw.truth(k))
+        if bd is None:
+            continue
+        a, b = strip(bd[1]), strip(bd[2])
+        if a == var and _fnum(b) is not None and _fnum(b) <= math.pi + 1e-12:
+            hi = True
+        if b == var and _fnum(a) is not None and _fnum(a) >= -math.pi - 1e-12:
+            lo = True
+    local = var[2] if var[0] == 'var' else var[1]
+    congruent = True
+    n = 0
+    for d in body.defs().get(local, []):
+        if d[0] != 'st':
+            if d[0] == 'arg':
+                continue
+            congruent = False
+            continue
+        t = strip(body._def_term(d))
+        if isinstance(t, tuple) and t[0] == 'bin' and t[1] in ('Add', 'Sub') and strip(t[2]) == var:
+            c = _fnum(t[3])
+            n += 1
+            if c is None or abs(abs(c) - 2 * math.pi) > 1e-12:
+                congruent = False
+        elif var[0] == 'var' and not contains(t, lambda x: x == var):
+            continue          # the initial value
+        else:
+            congruent = False
+    return (lo and hi), (congruent and n >= 1)
+
+
+def contains(t, pred):
+    return mir.contains(t, pred)
+
+
+def reduction_helper(prog, path):
+    """A crate-local fn(f64) -> f64 whose result is its argument reduced to [-PI, PI] by whole turns (proved from its control
+    flow with reduced_to_pi) -> True / False; None when `path` is not such a function at all."""
+    b = prog.bodies.get(path)
+    if b is None or b.kind == 'Closure' or b.arg_count != 1 or b.local_ty(1) != 'f64' or b.local_ty(0) != 'f64':
+        return None
+    rvs = b.return_values()
+    if not rvs:
+        return False
+    for t, d, rb in rvs:
+        t = strip(t)
+        if not (isinstance(t, tuple) and t[0] in ('mparam', 'var')):
+            return False
+        bounded, congruent = reduced_to_pi(b, t, d[1])
+        if not (bounded and congruent):
+            return False
+    return True
